@@ -33,7 +33,23 @@ class FCtx(object):
                 return model._module_const(r[2], r[1])
             except Exception:
                 return None
-        self.ex = T.extract(fref.node, inliner=self._make_inliner(model, fref), const_resolver=resolver)
+        self_consts = None
+        if fref.cls is not None and fref.node.args.args and fref.node.name not in fref.cls.staticmethods:
+            def class_const(name, cls=fref.cls):
+                # a class-level constant read through self (a declarative attribute a base-class method is driven by)
+                if not any(name in c.class_consts for c in cls.mro()):
+                    return None
+                try:
+                    v = cls.class_const(model, name)
+                except Exception:
+                    return None
+                if isinstance(v, (str, int, float, bool, type(None))):
+                    return ("const", v)
+                if isinstance(v, (tuple, list)) and all(isinstance(x, (str, int, float, bool, type(None))) for x in v):
+                    return ("tuple" if isinstance(v, tuple) else "list", tuple(("const", x) for x in v))
+                return None
+            self_consts = (fref.node.args.args[0].arg, class_const)
+        self.ex = T.extract(fref.node, inliner=self._make_inliner(model, fref), const_resolver=resolver, self_consts=self_consts)
         self.events = self.ex.events
         self.inlined = list(self.ex.inlined)
         # spelling-independent forms (string building, sort keys) for every term the rules look at
@@ -67,6 +83,7 @@ class FCtx(object):
         if len(live) != len(self.events):
             self.events[:] = live
         self.ex.loop_guards = dict((k, tuple(g for g in v if not const_guard(g))) for k, v in self.ex.loop_guards.items())
+        self._fold_local_dict_builds()
         self._alias_stored_locals()
         self._canon_regex_calls(model)
         self._fold_version_operands(model)
@@ -262,6 +279,80 @@ class FCtx(object):
             self.ex.loop_guards = dict((k, tuple((T.subst(g[0], make(1 << 30)),) + tuple(g[1:]) for g in v))
                                        for k, v in self.ex.loop_guards.items())
 
+    def _fold_local_dict_builds(self):
+        """a local dict filled step by step before it is used (``d = {..}; d["k"] = v; d.update(pairs)`` - all under the
+        conditions of its creation, none after its first use as a value) is the dict literal it adds up to"""
+        def pairs_of(t):
+            if t[0] == "dict" and all(k[0] == "const" and k[1] != "**" for k, _ in t[1]):
+                return list(t[1])
+            if t[0] in ("list", "tuple") and all(e[0] == "tuple" and len(e[1]) == 2 and e[1][0][0] == "const" for e in t[1]):
+                return [(e[1][0], e[1][1]) for e in t[1]]
+            if t[0] == "call" and t[1] == ("global", "dict") and not t[2] and not t[3]:
+                return []
+            return None
+        for b in list(self.events):
+            if b.kind != "bind" or b.value is None or b.value[0] != "local" or len(b.value) < 4 or not isinstance(b.value[3], tuple):
+                continue
+            L = b.value
+            init = pairs_of(L[3]) if L[3] else None
+            if init is None:
+                continue
+
+            def is_L(x, L=L):
+                return x[0] == "local" and x[1:3] == L[1:3]
+
+            def mentions(ev):
+                return any(t is not None and T.contains(t, is_L) for t in
+                           [ev.value, ev.target] + [g[0] for g in ev.guards] + [l[1] for l in ev.loops])
+            bg = own_guards(self, b)
+            muts, escaped, ok = [], False, True
+            for ev in self.events:
+                if ev.seq <= b.seq or not mentions(ev):
+                    continue
+                add = None
+                if ev.kind == "store" and ev.target[0] == "sub" and is_L(ev.target[1]) and ev.target[2][0] == "const" \
+                        and not T.contains(ev.value, is_L):
+                    add = [(ev.target[2], ev.value)]
+                elif ev.kind == "call" and ev.value[0] == "call" and ev.value[1][0] == "attr" and is_L(ev.value[1][1]) \
+                        and ev.value[1][2] == "update" and not any(T.contains(a, is_L) for a in ev.value[2]):
+                    if len(ev.value[2]) == 1 and not ev.value[3]:
+                        add = pairs_of(ev.value[2][0])
+                    elif not ev.value[2] and ev.value[3] and all(k != "**" for k, _ in ev.value[3]):
+                        add = [(("const", k), v) for k, v in ev.value[3]]
+                if add is not None:
+                    if escaped or ev.loops != b.loops or own_guards(self, ev) != bg:
+                        ok = False
+                        break
+                    muts.append((ev, add))
+                else:
+                    escaped = True
+            if not ok or not muts or not escaped:
+                continue
+            merged = list(init)
+            for ev, add in muts:
+                for k, v in add:
+                    hit = [i for i, (k2, _) in enumerate(merged) if k2 == k]
+                    if hit:
+                        merged[hit[0]] = (k, v)
+                    else:
+                        merged.append((k, v))
+            lit = ("dict", tuple(merged))
+            gone = set(id(ev) for ev, _ in muts)
+            last = max(ev.seq for ev, _ in muts)
+
+            def fn(x):
+                return lit if is_L(x) else None
+            for ev in self.events:
+                if ev.seq <= last or id(ev) in gone:
+                    continue
+                for fld in ("value", "target", "raw", "raw_target"):
+                    v = getattr(ev, fld)
+                    if v is not None:
+                        setattr(ev, fld, T.subst(v, fn))
+                ev.guards = tuple((T.subst(g[0], fn), g[1]) for g in ev.guards)
+                ev.raw_guards = tuple((T.subst(g[0], fn), g[1]) for g in ev.raw_guards)
+            self.events[:] = [ev for ev in self.events if id(ev) not in gone]
+
     def _alias_stored_locals(self):
         """``cell = self.table[key] = {}`` (or ``cell = {}; self.table[key] = cell``): from the store on, the local *is* the
         attribute path it was stored under; later uses of the local are rewritten to that path so that both spellings of
@@ -299,7 +390,7 @@ class FCtx(object):
 
         def bind(fn, args, kws, first=None):
             params = [a.arg for a in fn.args.args]
-            if fn.args.vararg or fn.args.kwarg or fn.args.kwonlyargs or any(a[0] == "starred" for a in args) or any(k == "**" for k, v in kws):
+            if fn.args.kwarg or fn.args.kwonlyargs or any(a[0] == "starred" for a in args) or any(k == "**" for k, v in kws):
                 return None
             env = {}
             if first is not None:
@@ -307,6 +398,10 @@ class FCtx(object):
                     return None
                 env[params[0]] = first
                 params = params[1:]
+            if fn.args.vararg:
+                # def f(a, b, *rest): the surplus positional arguments as a tuple
+                env[fn.args.vararg.arg] = ("tuple", tuple(args[len(params):]))
+                args = args[:len(params)]
             if len(args) > len(params):
                 return None
             for p_, a in zip(params, args):
@@ -330,6 +425,14 @@ class FCtx(object):
         def generator(fn):
             return any(isinstance(n, (ast.Yield, ast.YieldFrom)) for n in ast.walk(fn))
 
+        def yield_parents(fn):
+            out = []
+            for n in ast.walk(fn):
+                for c in ast.iter_child_nodes(n):
+                    if isinstance(c, (ast.Yield, ast.YieldFrom)):
+                        out.append(n if isinstance(c, ast.Yield) else None)
+            return out
+
         def class_of(t):
             """static class of a term: self, self.<attribute holding an instance>, a back-pointer attribute with one class"""
             if selfname is not None and t == ("param", selfname):
@@ -350,6 +453,27 @@ class FCtx(object):
                         return list(cs)[0]
             return None
 
+        def renamer(mod):
+            """module-level names used in a body taken from another module, spelled the way the function it is inlined into
+            spells the same object (its own import alias, else the dotted path)"""
+            home = fref.module
+            if mod is home:
+                return None
+
+            def spell(target):
+                for alias, tgt in home.imports.items():
+                    if tgt == target:
+                        return alias
+                return target
+
+            def ren(name):
+                if name in mod.functions or name in mod.classes or name in mod.assigns:
+                    return spell("productmd.%s.%s" % (mod.name, name))
+                if name in mod.imports:
+                    return spell(mod.imports[name])
+                return name
+            return ren
+
         def inliner(func, args, kws):
             if func[0] == "property":
                 # attribute access that is a property the rules do not know
@@ -364,9 +488,12 @@ class FCtx(object):
                     return None
                 if any(func[2] in k_.methods and k_ is not lk[0] for k_ in model.subclasses(c)):
                     return None
-                return lk[1], {lk[1].args.args[0].arg: func[1]}, tq
+                return lk[1], {lk[1].args.args[0].arg: func[1]}, tq, renamer(lk[0].module)
             target = None
             first = None
+            want_gen = func[0] == "generator"
+            if want_gen:
+                func = func[1]
             if func[0] == "global":
                 r = model.resolve_name(fref.module, func[1])
                 if r and r[0] == "func" and r[1].cls is None:
@@ -401,14 +528,17 @@ class FCtx(object):
             if target is not None and target.cls is None and not via_super \
                     and any(q.count(".") == 1 and q.split(".")[1] == target.node.name for q in KNOWN_FUNCS):
                 return None          # a module-level function the rules know, moved to another module
-            if target is None or (target.qname in KNOWN_FUNCS and not via_super) or target.node is fref.node or generator(target.node):
+            if target is None or (target.qname in KNOWN_FUNCS and not via_super) or target.node is fref.node \
+                    or generator(target.node) != want_gen:
                 return None
+            if want_gen and not all(isinstance(p_, ast.Expr) for p_ in yield_parents(target.node)):
+                return None          # only generators whose yields are plain statements
             if target.node.decorator_list and any((dotted(d) or "") not in ("staticmethod",) for d in target.node.decorator_list):
                 return None
             env = bind(target.node, list(args), list(kws), first)
             if env is None:
                 return None
-            return target.node, env, target.qname
+            return target.node, env, target.qname, renamer(target.module)
         return inliner
 
     @classmethod
@@ -1477,16 +1607,24 @@ def searches(cx):
             loops.setdefault(ev.loops[0][0], ev.loops[0][1])
     for r in raises:
         own = own_guards(cx, r)
-        # (d) any(...)
-        if own:
-            t, pol = T.strip_not(own[-1][0], own[-1][1])
+        # (d) any(...): ``if not any(..): raise``, or ``if any(..): return`` followed by the raise
+        own_d, form_d = own, "any"
+        if not own:
+            own_d = own_guards(cx, r, kinds=("raise", "continue", "break"))
+            form_d = "return"
+            early = [e for e in cx.events if e.kind == "return" and e.seq < r.seq and len(own_d) == 1 and len(e.guards) == len(r.guards)
+                     and e.guards[:-1] == r.guards[:-1] and e.guards[-1] == (r.guards[-1][0], not r.guards[-1][1])]
+            if len(own_d) != 1 or not early or any(e.value != ("const", None) for e in early):
+                own_d = []
+        if own_d:
+            t, pol = T.strip_not(own_d[-1][0], own_d[-1][1])
             if not pol and t[0] == "call" and t[1] == ("global", "any") and len(t[2]) == 1 and t[2][0][0] == "comp" \
-                    and len(t[2][0][3]) == 1 and not t[2][0][3][0][2] and len(t[2][0][3][0][0]) == 2 and len(own) == 1:
+                    and len(t[2][0][3]) == 1 and not t[2][0][3][0][2] and len(t[2][0][3][0][0]) == 2 and len(own_d) == 1:
                 comp = t[2][0]
                 name = comp[3][0][0][1]
                 elem = ("elem", comp[3][0][1], "any")
                 test = T.bool_form(T.subst(comp[2], lambda x: elem if x == ("bound", name) else None))
-                out.append(Search(comp[3][0][1], elem, test, r, "any"))
+                out.append(Search(comp[3][0][1], elem, test, r, form_d))
                 continue
         for lid, coll in loops.items():
             base = tuple(cx.ex.loop_guards.get(lid, ()))
@@ -1776,7 +1914,11 @@ class Scenario(object):
         return T.subst(t, fn)
 
     def truth(self, t):
-        return T.truth(self._fold(t), self._decide)
+        t = self._fold(t)
+        if T.contains(t, lambda x: x[0] == "gate"):
+            # a value merged from two branches: the branch this scenario takes
+            t = self._fold(T.select(t, self._decide))
+        return T.truth(t, self._decide)
 
     def term(self, raw):
         """the value of a (raw, gated) term in this scenario"""
